@@ -1,6 +1,6 @@
 //! History driver for steel-rc's biased reference counting (C05), runnable natively and under Miri.
 //!
-//! usage: rcmiri <seed> <histories> <ops-per-history> <mode: seq|conc|both>
+//! usage: rcmiri <seed> <histories> <ops-per-history> <mode: seq|conc|both|race|mrace>
 //!
 //! seq : one operation at a time (the driver waits for each worker's acknowledgement), so every
 //!       object's history is sequential and an exact shadow count is known: asserted are
@@ -440,12 +440,86 @@ fn history_race(seed: u64, rounds: usize, spins: usize) {
     let _ = helper.join();
 }
 
+static MERGE_GO: AtomicUsize = AtomicUsize::new(0);
+
+/// Second targeted family: the owner runs an *explicit merge* of an object on its queue (the object was queued
+/// because a handle counted on the owner's side was dropped on the helper's thread) while the helper, which
+/// meanwhile cloned a reference of its own, drops that last reference. The merge publishes the merged flag with a
+/// positive count; from then on the helper's drop may free the box. Asserted per round: payload intact whenever
+/// it is touched, destroyed exactly once after both sides are done.
+fn history_mrace(seed: u64, rounds: usize, spins: usize) {
+    let (to_helper, from_owner) = channel::<Option<(H, SendPtr)>>();
+    let (to_owner, from_helper) = channel::<u8>();
+    let helper = steel_rc::with_explicit_merge(move || {
+        let mut r = Rng(seed | 1);
+        while let Ok(Some((moved, p))) = from_owner.recv() {
+            moved.check("mrace-helper-moved");
+            // counted on the owner's side, dropped here: shared counter goes to -1, the object is queued
+            drop(moved);
+            // SAFETY: the owner keeps its handle alive until we acknowledge the clone
+            let mine: H = unsafe { (&*p.0).clone() };
+            let stamp = mine.id + 1;
+            to_owner.send(1).unwrap();
+            mine.check("mrace-helper-last");
+            // wait until the owner is about to merge, then drop after a short random delay
+            let mut waited = 0usize;
+            while MERGE_GO.load(Ordering::Acquire) != stamp && waited < 50_000_000 {
+                waited += 1;
+                if cfg!(miri) {
+                    std::thread::yield_now();
+                } else {
+                    std::hint::spin_loop();
+                }
+            }
+            for _ in 0..r.below(spins.max(1)) {
+                std::hint::spin_loop();
+            }
+            drop(mine);
+            to_owner.send(2).unwrap();
+        }
+    });
+    let mut r = Rng(seed.wrapping_mul(37) | 1);
+    for _ in 0..rounds {
+        let h: H = BiasedRc::new(Payload::new());
+        let id = h.id;
+        let moved = h.clone();
+        to_helper.send(Some((moved, SendPtr(&h as *const H)))).unwrap();
+        assert_eq!(from_helper.recv().unwrap(), 1);
+        // the owner's side count stays at 1 after this drop (the moved handle was counted here)
+        drop(h);
+        for _ in 0..r.below(4) {
+            std::hint::spin_loop();
+        }
+        MERGE_GO.store(id + 1, Ordering::Release);
+        QueueHandle::run_explicit_merge();
+        assert_eq!(from_helper.recv().unwrap(), 2);
+        QueueHandle::run_explicit_merge();
+        let n = DROPS.lock().unwrap()[id];
+        if n != 1 {
+            violation(if n == 0 {
+                format!("payload {id} was never destroyed although every reference was dropped (merge-race round)")
+            } else {
+                format!("payload {id} destroyed more than once (merge-race round: {n} times)")
+            });
+        }
+    }
+    to_helper.send(None).unwrap();
+    let _ = helper.join();
+}
+
 fn main() {
     let a: Vec<String> = std::env::args().collect();
     let seed: u64 = a.get(1).and_then(|s| s.parse().ok()).unwrap_or(1);
     let hist: usize = a.get(2).and_then(|s| s.parse().ok()).unwrap_or(4);
     let ops: usize = a.get(3).and_then(|s| s.parse().ok()).unwrap_or(40);
     let mode = a.get(4).map(|s| s.as_str()).unwrap_or("both").to_string();
+    // RCMIRI_QUARANTINE=1: steel-rc's verif hook keeps destroyed boxes (poisoned) instead of freeing them and
+    // reports every entry point of the counting scheme that is handed a destroyed box - a use-after-free becomes
+    // a report naming the site instead of undefined behaviour
+    let quarantine = !cfg!(miri) && std::env::var("RCMIRI_QUARANTINE").map(|v| v == "1").unwrap_or(false);
+    if quarantine {
+        steel_rc::verif::enable();
+    }
     steel_rc::register_thread();
     let mut total_ops = 0usize;
     for h in 0..hist {
@@ -457,6 +531,10 @@ fn main() {
         }
         if mode == "race" {
             history_race(s ^ 0x5EED, ops, if cfg!(miri) { 6 } else { 3000 });
+            total_ops += ops;
+        }
+        if mode == "mrace" {
+            history_mrace(s ^ 0x3E26E, ops, if cfg!(miri) { 4 } else { 400 });
             total_ops += ops;
         }
         if mode == "conc" || mode == "both" {
@@ -474,6 +552,19 @@ fn main() {
             if never <= 5 {
                 violation(format!("payload {id} was never destroyed although every reference was dropped"));
             }
+        }
+    }
+    if quarantine {
+        let mut sites: Vec<(&'static str, usize)> = Vec::new();
+        for r in steel_rc::verif::take_reports() {
+            match sites.iter_mut().find(|x| x.0 == r) {
+                Some(x) => x.1 += 1,
+                None => sites.push((r, 1)),
+            }
+        }
+        for (site, n) in sites {
+            // in front of the (possibly many) leak lines, so that it is among the lines printed
+            VIOLATIONS.lock().unwrap().insert(0, format!("destroyed box handed to {site} [{n} time(s)]"));
         }
     }
     let v = VIOLATIONS.lock().unwrap();
